@@ -116,15 +116,11 @@ Proof.
 Qed.
 
 (* ---------- ToBoolean, typeof, predicates ---------- *)
-Theorem to_boolean_agrees : forall g,
-  to_boolean (toValue false g) = spec_to_boolean g /\
-  ((forall b, g <> GF32 b) -> wf g -> to_boolean (toValue true g) = spec_to_boolean g).
+Theorem to_boolean_agrees : forall refl g, wf g ->
+  to_boolean (toValue refl g) = spec_to_boolean g.
 Proof.
-  intro g. split.
-  - destruct g; reflexivity.
-  - intros Hn Hw. destruct g; cbn [toValue to_boolean spec_to_boolean]; try reflexivity.
-    + rewrite (wrap_id _ _ Hw). reflexivity.
-    + exfalso. apply (Hn b). reflexivity.
+  intros refl g Hw. destruct g; destruct refl; cbn [toValue to_boolean spec_to_boolean]; try reflexivity.
+  rewrite (wrap_id _ _ Hw). reflexivity.
 Qed.
 
 Theorem predicates_agree : forall refl g,
@@ -144,13 +140,24 @@ Theorem to_float_agrees : forall sn g,
   to_float sn (toValue false g) = Ok (spec_to_float sn g).
 Proof. intros sn g. destruct g; reflexivity. Qed.
 
-Theorem to_float_agrees_refl : forall sn g, wf g -> (forall b, g <> GF32 b) ->
+Theorem to_float_agrees_refl : forall sn g, wf g ->
   to_float sn (toValue true g) = Ok (spec_to_float sn g).
 Proof.
-  intros sn g Hw Hn. destruct g; try reflexivity.
-  - cbn [toValue]. rewrite (wrap_id _ _ Hw). reflexivity.
-  - exfalso. apply (Hn b). reflexivity.
+  intros sn g Hw. destruct g; try reflexivity.
+  cbn [toValue]. rewrite (wrap_id _ _ Hw). reflexivity.
 Qed.
+
+(* ToInteger of every float (float64, float32 on either branch), bool and nil is that of the counterpart *)
+Theorem to_integer_nonint : forall sn refl g, (forall k n, g <> GInt k n) ->
+  to_integer sn (toValue refl g) = Ok (spec_to_integer sn g).
+Proof.
+  intros sn refl g Hn. destruct g; destruct refl; try reflexivity; exfalso; eapply Hn; reflexivity.
+Qed.
+
+(* MarshalJSON of the type-switch branch is JSON.stringify of the counterpart, NaN and infinities included *)
+Theorem marshal_json_agrees : forall fs js g,
+  marshal_json fs js (toValue false g) = spec_marshal_json fs js g.
+Proof. intros fs js g. destruct g; reflexivity. Qed.
 
 (* ---------- saturation: every uint/uint64 from 2^63 up reads as MaxInt64, as the int64 API requires ---------- *)
 Lemma round_ge_2_63 : forall n, 2 ^ 63 <= n < 2 ^ 64 -> 2 ^ 63 <= round_to_double n.
